@@ -6,6 +6,42 @@ import os
 HERE = os.path.dirname(os.path.dirname(os.path.abspath(__file__)))
 
 CHECKS = {
+    "C05": dict(
+        category="other",
+        text="Typestate fixpoint over the CFG (with exception edges) of the byte pump marshal(): every return, raise and "
+             "warning site is classified in every abstract state (look-ahead byte INIT/FRESH/SENT x depleted x last yield) "
+             "that reaches it. E1: no return absorbs a pulled-but-unconsumed byte or a truncated input; the superfluous "
+             "error carries look-ahead byte + rest of the iterator; leaving the pull loop always reports depletion. E2: both "
+             "errors carry the running command code, assigned only from the <root>.commandCode event. E3: the silent "
+             "end-of-input return is control dependent on the stream type, the depleted flag and a root event. Decides the "
+             "shape of the pump on all paths, not which events precede the error for a concrete truncation point.",
+        note="trusted: CPython ast; generator send/StopIteration semantics; processor protocol (C10-T1). The events emitted "
+             "before the error (value clause) are not decided.",
+        technique="CFG + typestate abstract interpretation (path-sensitive on depleted flag / look-ahead byte), def-use, control dependence",
+        design="4/C05",
+    ),
+    "C10": dict(
+        category="other",
+        text="T1: pump typestate - next(source) is executed only while no unconsumed byte is held, send(byte) only with a "
+             "fresh byte and only when the processor asked for one, send(None) only after an event; every use of the source "
+             "iterator is the canonical one-byte pull or a remaining-bytes attach; the primitive walker emits its event "
+             "with no byte request in between. T2: the buffer parameters of the pump and of the three lazy front-end "
+             "scanners are used only through iter()/next() (except inside raise). T3: the processor never receives the "
+             "buffer or iterator. This is the structural core of the property; concrete pull counts are its dynamic view.",
+        note="trusted: CPython ast; Python iterator/generator protocol. pcapng.marshal materialises its input by design (documented in the code) and is outside T2.",
+        technique="CFG + typestate abstract interpretation of the pump, who-may-use rules on iterator/buffer variables",
+        design="4/C10",
+    ),
+    "C13": dict(
+        category="other",
+        text="At each site of the pump that attaches remaining bytes to a ConstraintViolatedError, the attached expression "
+             "is resolved (def-use, path-sensitive on the depleted flag) in every abstract state reaching it and must be "
+             "exactly 'look-ahead byte iff FRESH, then the iterator'; every re-raise attaches to the same error first; "
+             "the overrun error is raised only after consume_bytes(size_max - size_already), in both modes.",
+        note="trusted: CPython ast; itertools.chain/bytes semantics. The byte equation on concrete inputs is not decided.",
+        technique="typestate abstract interpretation + path-sensitive reaching definitions at the attach sites",
+        design="4/C13",
+    ),
     "C17": dict(
         category="proof",
         text="M1 decides the mask clause exhaustively on the tables reconstructed from source: for all 12 "
